@@ -56,6 +56,8 @@ pub enum TextMut {
     Append { i: usize, last: bool, suffix: String },
     /// make the content of occurrence i empty (`:23E:` directly followed by the next field)
     Empty { i: usize },
+    /// repeat the whole field list `times` times (long texts: 64 … several hundred fields)
+    Repeat { times: usize },
 }
 
 #[derive(Serialize, Deserialize, Clone, Debug, PartialEq)]
@@ -112,6 +114,9 @@ pub struct Spec {
     pub consumers: usize,
     pub script: Vec<Step>,
     pub drain: bool,
+    /// tick of the simulated monotonic clock per read (slow or stalled node); 0 = 1 µs
+    #[serde(default)]
+    pub mono_tick_ns: i64,
 }
 
 pub struct C16;
@@ -218,6 +223,15 @@ fn apply_text_muts(occs: &mut Vec<Occ>, muts: &[TextMut], crlf: &mut bool) {
             TextMut::Pad { i } => occs[i % n].pad = true,
             TextMut::CrlfAt { i } => occs[i % n].crlf = true,
             TextMut::Empty { i } => occs[i % n].content.clear(),
+            TextMut::Repeat { times } => {
+                let base = occs.clone();
+                for _ in 1..(*times).clamp(1, 16) {
+                    if occs.len() + base.len() > 600 {
+                        break;
+                    }
+                    occs.extend(base.iter().cloned());
+                }
+            }
             TextMut::Append { i, last, suffix } => {
                 let k = if *last { n - 1 } else { i % n };
                 occs[k].content.push_str(suffix);
@@ -879,12 +893,16 @@ impl Engine for C16 {
         // swarm knobs
         let n_muts = *w.pick(&[0usize, 0, 1, 2, 3, 4]);
         let mut text_muts = vec![];
+        // one run in twelve works on a long text
+        if w.chance(1, 12) {
+            text_muts.push(TextMut::Repeat { times: 3 + w.below(12) });
+        }
         for _ in 0..n_muts {
             let (a, b) = (w.below(1000), w.below(1000));
             text_muts.push(match w.below(22) {
                 0..=2 => TextMut::Dup { i: a, j: b },
                 3 | 4 => TextMut::Swap { i: a, j: b },
-                5..=8 => TextMut::Letter { i: a, letter: (*w.pick(&["A", "B", "C", "D", "F", "G", "H", "K", "L", ""])).to_string() },
+                5..=8 => TextMut::Letter { i: a, letter: (*w.pick(&["A", "B", "C", "D", "F", "G", "H", "K", "L", "", "A", "F", "K", "a", "f", "k", "AB", "1"])).to_string() },
                 9 | 10 => TextMut::Insert {
                     j: b,
                     tag: (*w.pick(&["99Z", "50K", "50A", "50F", "50C", "50L", "50G", "50H", "59", "59A", "59F", "52A", "52D", "21", "23E", "72", "79", "86", "61", "32B", "71F", "12"])).to_string(),
@@ -945,6 +963,7 @@ impl Engine for C16 {
             consumers,
             script,
             drain: true,
+            mono_tick_ns: *s.pick(&[1_000i64, 1_000, 1_000, 1_000_000, 20_000_000, 300_000_000, 10_000_000_000]),
         }
     }
 
@@ -965,7 +984,7 @@ impl Engine for C16 {
         } else {
             None
         };
-        let clock = ClockCfg { start_ns: seam::ns_of(2026, 1, 1, 0, 0, 0, 0) + (spec.run_seed % 1_000_000) as i64 * 86_400_000_000, ..ClockCfg::plain() };
+        let clock = ClockCfg { start_ns: seam::ns_of(2026, 1, 1, 0, 0, 0, 0) + (spec.run_seed % 1_000_000) as i64 * 86_400_000_000, mono_tick_ns: spec.mono_tick_ns, ..ClockCfg::plain() };
         let ctx = clock.ctx(spec.e_w);
         let ctx2 = ctx.clone();
         let spec2 = spec.clone();
@@ -1091,6 +1110,9 @@ impl Engine for C16 {
         };
         out.absorb_ctx(&ctx);
         out.sim_ns = 0;
+        if spec.mono_tick_ns >= 20_000_000 && out.counters.get("seam.monotonic_clock_reads").copied().unwrap_or(0) > 0 {
+            out.count("fault.clock.slow_node_monotonic_tick_observed", 1);
+        }
         let shape: Vec<String> = spec.script.iter().map(|s| format!("{}{}", s.consumer, match &s.req { Req::Find { constraint, .. } => if constraint.is_some() { "Fc" } else { "F" }, Req::FindNumbered { .. } => "N", Req::Peek { .. } => "P", Req::Take { .. } => "T", Req::Remark { .. } => "R", Req::MarkForeign { .. } => "M", Req::CloneTracker => "C", Req::Retokenise => "K", Req::Split { .. } => "S", Req::Repetitive { .. } => "I", Req::MarkAhead { .. } => "A", Req::FindInSeq { .. } => "Q", Req::FindPresent { .. } => "V" })).collect();
         out.shape_digest = fnv_str(&shape.join(" "));
         out.count(&format!("consumers.{}", spec.consumers.clamp(1, 4)), 1);
@@ -1107,6 +1129,11 @@ impl Engine for C16 {
         if spec.drain {
             let mut s = spec.clone();
             s.drain = false;
+            v.push(s);
+        }
+        if spec.mono_tick_ns > 1_000 {
+            let mut s = spec.clone();
+            s.mono_tick_ns = 0;
             v.push(s);
         }
         // halves, then single steps
